@@ -72,6 +72,9 @@ WARNING_CATEGORIES = {
 }
 
 
+NESTING = [0]  # > 0 while any scripted callback is running (a callback on one object may drive other objects' seams)
+
+
 class Ctl:
     """Per-instance controller: plan in, log out. Copies start with a fresh controller."""
 
@@ -362,7 +365,7 @@ def make_scripted(fsic, spec, bases=None, extra_attrs=None):
         n = len(self.__dict__['span'])
         tn = t + n if t < 0 else t
         key = f'{hook}:{tn}'
-        if ctl.depth:
+        if ctl.depth or NESTING[0]:
             # user code (a scripted callback) has called back into the library and the library is calling user code
             # again: these seam calls are kept apart from the history of the operation under way (and judged on their
             # own where the callback solved another period of this object)
